@@ -332,7 +332,7 @@ func (m *refModel) step(c *c37Case, sc c37Scrape, T int64, bodyLen int, obs obsS
 		forked := map[string]bool{}
 		reachLimit := 0   // appends that reach the sample limit the way the loop counts them
 		maybeCounted := 0 // repeated metric strings the loop may or may not have counted
-		limitHit, bucketHit := false, false
+		limitHit, bucketHit, bucketMaybe := false, false, false
 		for k, s := range sc.Samples {
 			if garbageAt == k {
 				failed, info.outcome, info.detail = "parse", "parse", fmt.Sprintf("malformed input in front of sample %d", k)
@@ -378,7 +378,11 @@ func (m *refModel) step(c *c37Case, sc c37Scrape, T int64, bodyLen int, obs obsS
 				if m.cfg.bucketLimit > 0 {
 					red, ok := limitBuckets(fh, m.cfg.bucketLimit)
 					if !ok {
-						bucketHit = true
+						if uncertain {
+							bucketMaybe = true // only if the loop handed this repeated string to the storage at all
+						} else {
+							bucketHit = true
+						}
 						continue
 					}
 					if red.Schema != fh.Schema {
@@ -451,6 +455,11 @@ func (m *refModel) step(c *c37Case, sc c37Scrape, T int64, bodyLen int, obs obsS
 			if limitHit {
 				failed, info.outcome = "sample_limit", "sample_limit"
 			}
+		}
+		if failed == "" && !bucketHit && bucketMaybe {
+			info.ambLimit = true
+			up, ok := obs.byKT[kt(m.reportKey["up"], T)]
+			bucketHit = ok && up.V.bits == gen.B(0)
 		}
 		if failed == "" && bucketHit {
 			failed, info.outcome = "bucket_limit", "bucket_limit"
